@@ -614,6 +614,16 @@ func (b *Reader) SkipTo(ty, tag byte, require bool) (bool, error) {
 	return have, nil
 }
 
+// CheckLength reports an error if a container announcing n elements cannot be held by the
+// bytes that remain (every element takes at least one byte). Generated decoders call it
+// before sizing an allocation by a length read from the wire.
+func (b *Reader) CheckLength(n int32) error {
+	if n < 0 || int(n) > b.buf.Len() {
+		return fmt.Errorf("invalid length %d, only %d bytes remain", n, b.buf.Len())
+	}
+	return nil
+}
+
 // ReadSliceInt8 reads []int8 for the given length and the require or optional sign.
 func (b *Reader) ReadSliceInt8(data *[]int8, len int32, require bool) error {
 	if len <= 0 {
